@@ -110,6 +110,8 @@ enum Kind {
     OutReg,
     Wire,
     Reg,
+    /// `let name: type = expr;` (a combinational variable defined at its declaration)
+    Let,
 }
 
 impl Kind {
@@ -120,6 +122,7 @@ impl Kind {
             Kind::OutReg => 'q',
             Kind::Wire => 'w',
             Kind::Reg => 'r',
+            Kind::Let => 'l',
         }
     }
     fn of(c: char) -> Option<Kind> {
@@ -129,6 +132,7 @@ impl Kind {
             'q' => Kind::OutReg,
             'w' => Kind::Wire,
             'r' => Kind::Reg,
+            'l' => Kind::Let,
             _ => return None,
         })
     }
@@ -136,7 +140,7 @@ impl Kind {
         matches!(self, Kind::OutReg | Kind::Reg)
     }
     fn is_comb(self) -> bool {
-        matches!(self, Kind::OutComb | Kind::Wire)
+        matches!(self, Kind::OutComb | Kind::Wire | Kind::Let)
     }
     fn observed(self) -> bool {
         matches!(self, Kind::OutComb | Kind::OutReg)
@@ -176,6 +180,8 @@ const SHIFT: &[&str] = &["shl", "shr", "ashl", "ashr"];
 #[derive(Clone, PartialEq, Debug)]
 enum S {
     Set(usize, usize, usize, E),
+    /// `var[idx*w +: w] = e` (run-time index; `w = 1`: `var[idx] = e`)
+    SetD(usize, usize, E, E),
     If(E, Vec<S>, Vec<S>),
     Case(E, Vec<(E, Vec<S>)>, Vec<S>),
     Disp(usize, Vec<E>),
@@ -449,6 +455,12 @@ fn parse_stmt(t: &[&str], pos: &mut usize) -> Option<S> {
             let w = parse_num(t, pos)?;
             Some(S::Set(v, lo, w, parse_expr(t, pos)?))
         }
+        "setd" => {
+            let v = parse_num(t, pos)?;
+            let w = parse_num(t, pos)?;
+            let i = parse_expr(t, pos)?;
+            Some(S::SetD(v, w, i, parse_expr(t, pos)?))
+        }
         "if" => {
             let c = parse_expr(t, pos)?;
             let a = parse_stmts(t, pos)?;
@@ -485,6 +497,11 @@ impl S {
                 out.extend(["set".to_string(), v.to_string(), lo.to_string(), w.to_string()]);
                 e.polish(out);
             }
+            S::SetD(v, w, i, e) => {
+                out.extend(["setd".to_string(), v.to_string(), w.to_string()]);
+                i.polish(out);
+                e.polish(out);
+            }
             S::If(c, a, b) => {
                 out.push("if".into());
                 c.polish(out);
@@ -512,6 +529,10 @@ impl S {
         match self {
             S::Set(v, lo, w, e) => {
                 out.push_str(&format!("{pad}{} = {};\n", lhs_text(vars, *v, *lo, *w), e.veryl(vars)));
+            }
+            S::SetD(v, w, i, e) => {
+                let sel = if *w == 1 { i.veryl(vars) } else { format!("{} * {w}+:{w}", i.veryl(vars)) };
+                out.push_str(&format!("{pad}{}[{sel}] = {};\n", vname(vars, *v), e.veryl(vars)));
             }
             S::If(c, a, b) => {
                 out.push_str(&format!("{pad}if {} {{\n", c.veryl(vars)));
@@ -543,6 +564,7 @@ impl S {
     fn exprs(&self) -> Vec<&E> {
         match self {
             S::Set(_, _, _, e) => vec![e],
+            S::SetD(_, _, i, e) => vec![i, e],
             S::If(c, a, b) => std::iter::once(c).chain(a.iter().flat_map(|s| s.exprs())).chain(b.iter().flat_map(|s| s.exprs())).collect(),
             S::Case(sel, arms, d) => std::iter::once(sel)
                 .chain(arms.iter().flat_map(|(l, b)| std::iter::once(l).chain(b.iter().flat_map(|s| s.exprs()))))
@@ -553,7 +575,7 @@ impl S {
     }
     fn count(&self) -> usize {
         match self {
-            S::Set(..) | S::Disp(..) => 1,
+            S::Set(..) | S::SetD(..) | S::Disp(..) => 1,
             S::If(_, a, b) => 1 + stmts_count(a) + stmts_count(b),
             S::Case(_, arms, d) => 1 + arms.iter().map(|(_, b)| stmts_count(b)).sum::<usize>() + stmts_count(d),
         }
@@ -561,6 +583,7 @@ impl S {
     fn map_exprs(&self, f: &dyn Fn(&E) -> E) -> S {
         match self {
             S::Set(v, lo, w, e) => S::Set(*v, *lo, *w, f(e)),
+            S::SetD(v, w, i, e) => S::SetD(*v, *w, f(i), f(e)),
             S::If(c, a, b) => S::If(f(c), a.iter().map(|s| s.map_exprs(f)).collect(), b.iter().map(|s| s.map_exprs(f)).collect()),
             S::Case(sel, arms, d) => S::Case(
                 f(sel),
@@ -712,7 +735,7 @@ impl Case {
             stim.push((r, p[1..].iter().map(|x| x.to_string()).collect()));
         }
         let c = Case { stratum: t[1].to_string(), vars, decls, stim };
-        c.well_scoped().then_some(c)
+        (c.well_scoped() && c.lets_ok() && c.dyn_ok()).then_some(c)
     }
     /// every reference is to a declared variable and every range lies inside it
     fn well_scoped(&self) -> bool {
@@ -733,6 +756,7 @@ impl Case {
         fn ok_s(s: &S, vars: &[Var]) -> bool {
             match s {
                 S::Set(v, lo, w, _) => *v < vars.len() && *w > 0 && lo + w <= vars[*v].width,
+                S::SetD(v, w, _, _) => *v < vars.len() && *w > 0 && *w <= vars[*v].width,
                 S::If(_, a, b) => a.iter().chain(b.iter()).all(|s| ok_s(s, vars)),
                 S::Case(_, arms, d) => arms.iter().flat_map(|(_, b)| b.iter()).chain(d.iter()).all(|s| ok_s(s, vars)),
                 S::Disp(..) => true,
@@ -778,7 +802,7 @@ impl Case {
             // a conditional or partial writer needs the rest of the variable to be defined
             fn writes(s: &S, out: &mut Vec<usize>) {
                 match s {
-                    S::Set(v, ..) => out.push(*v),
+                    S::Set(v, ..) | S::SetD(v, ..) => out.push(*v),
                     S::If(_, a, b) => a.iter().chain(b.iter()).for_each(|x| writes(x, out)),
                     S::Case(_, arms, d) => arms.iter().flat_map(|x| x.1.iter()).chain(d.iter()).for_each(|x| writes(x, out)),
                     S::Disp(..) => {}
@@ -794,6 +818,39 @@ impl Case {
             }
         }
         (0..n).all(|i| !self.vars[i].kind.is_comb() || !needed[i] || cover[i].iter().all(|b| *b))
+    }
+    /// every `let` variable is defined by exactly one whole-variable `assign`
+    fn lets_ok(&self) -> bool {
+        (0..self.vars.len()).filter(|i| self.vars[*i].kind == Kind::Let).all(|i| {
+            let defs: Vec<&D> = self.decls.iter().filter(|d| matches!(d, D::Assign(v, ..) if *v == i)).collect();
+            let other = self.decls.iter().any(|d| {
+                fn w(s: &S, i: usize) -> bool {
+                    match s {
+                        S::Set(v, ..) | S::SetD(v, ..) => *v == i,
+                        S::If(_, a, b) => a.iter().chain(b.iter()).any(|x| w(x, i)),
+                        S::Case(_, arms, d) => arms.iter().flat_map(|x| x.1.iter()).chain(d.iter()).any(|x| w(x, i)),
+                        S::Disp(..) => false,
+                    }
+                }
+                d.stmts().iter().any(|s| w(s, i))
+            });
+            defs.len() == 1 && !other && matches!(defs[0], D::Assign(_, lo, w, _) if *lo == 0 && *w == self.vars[i].width)
+        })
+    }
+    /// every run-time indexed store stays inside its variable for every index value
+    fn dyn_ok(&self) -> bool {
+        fn ok(s: &S, vars: &[Var]) -> bool {
+            match s {
+                S::SetD(v, w, i, _) => {
+                    let k = i.size(vars);
+                    k <= 16 && w * (1usize << k) <= vars[*v].width && !i.sgn(vars)
+                }
+                S::If(_, a, b) => a.iter().chain(b.iter()).all(|x| ok(x, vars)),
+                S::Case(_, arms, d) => arms.iter().flat_map(|x| x.1.iter()).chain(d.iter()).all(|x| ok(x, vars)),
+                _ => true,
+            }
+        }
+        self.decls.iter().all(|d| d.stmts().iter().all(|s| ok(s, &self.vars)))
     }
     fn veryl(&self) -> String {
         let vars = &self.vars;
@@ -812,8 +869,16 @@ impl Case {
                 s.push_str(&format!("    var {}: {}logic<{}>;\n", vname(vars, i), if v.signed { "signed " } else { "" }, v.width));
             }
         }
+        for (i, v) in vars.iter().enumerate() {
+            if v.kind == Kind::Let
+                && let Some(D::Assign(_, _, _, e)) = self.decls.iter().find(|d| matches!(d, D::Assign(x, ..) if *x == i))
+            {
+                s.push_str(&format!("    let {}: {}logic<{}> = {};\n", vname(vars, i), if v.signed { "signed " } else { "" }, v.width, e.veryl(vars)));
+            }
+        }
         for d in &self.decls {
             match d {
+                D::Assign(v, ..) if vars[*v].kind == Kind::Let => {}
                 D::Assign(v, lo, w, e) => s.push_str(&format!("    assign {} = {};\n", lhs_text(vars, *v, *lo, *w), e.veryl(vars))),
                 D::Comb(b) => {
                     s.push_str("    always_comb {\n");
@@ -1472,7 +1537,85 @@ fn gen_design(r: &mut Rng, level: u32, seq: bool) -> Case {
     let combs: Vec<usize> = (0..n).filter(|i| g.vars[*i].kind.is_comb()).collect();
     let mut avail: Vec<usize> = (0..n).filter(|i| g.vars[*i].kind == Kind::In || g.vars[*i].kind.is_reg()).collect();
     let mut decls = vec![];
+    // run-time indexed stores: `t[idx] = d` / `t[idx*W+:W] = e`, the index computed by a `let` / wire that
+    // (in half of the designs) is used nowhere else; the target is W * 2^k bits wide so that every index is in range
+    let mut hidden: Vec<usize> = vec![];
+    let mut hidden_ff: Vec<usize> = vec![];
+    let mut dyn_decls: Vec<D> = vec![];
+    if g.r.chance(1, 2) {
+        let k = g.r.range(1, 3) as usize;
+        let w = *g.r.pick(&[1usize, 1, 2, 3, 4, 4, 8]);
+        let tw = w << k;
+        let srcs: Vec<usize> = avail.iter().copied().filter(|i| g.vars[*i].width >= k && !g.vars[*i].signed).collect();
+        if let Some(src) = (!srcs.is_empty()).then(|| *g.r.pick(&srcs)) {
+            let ix = g.vars.len();
+            let let_kind = if g.r.chance(2, 3) { Kind::Let } else { Kind::Wire };
+            g.vars.push(Var { kind: let_kind, width: k, signed: false });
+            let sw = g.vars[src].width;
+            let lo = g.r.range(0, (sw - k) as u64) as usize;
+            let ie = if sw == k { E::Var(src) } else { E::Sel(src, lo, k) };
+            let ie = if g.r.chance(1, 3) && sw > k { E::Bin("xor", Box::new(ie), Box::new(E::Sel(src, (lo + 1).min(sw - k), k))) } else { ie };
+            dyn_decls.push(D::Assign(ix, 0, k, ie));
+            let index_only = g.r.chance(1, 2);
+            let t = g.vars.len();
+            let seq_t = seq && g.r.chance(1, 2);
+            g.vars.push(Var { kind: if seq_t { Kind::OutReg } else { Kind::OutComb }, width: tw, signed: false });
+            // right-hand sides: arithmetic on W-bit operands, so that carries/borrows leave the window
+            let operand = |g: &mut Gen, avail: &[usize]| -> E {
+                let c: Vec<usize> = avail.iter().copied().filter(|i| g.vars[*i].width >= w && !g.vars[*i].signed).collect();
+                if c.is_empty() || g.r.chance(1, 4) {
+                    return E::Lit(w, false, rand_value(g.r, w));
+                }
+                let i = *g.r.pick(&c);
+                let lo = g.r.range(0, (g.vars[i].width - w) as u64) as usize;
+                if g.vars[i].width == w { E::Var(i) } else { E::Sel(i, lo, w) }
+            };
+            let mut dyn_rhs = |g: &mut Gen, avail: &[usize]| -> E {
+                if g.r.chance(2, 3) {
+                    let op = *g.r.pick(&["add", "sub", "sub", "add", "mul"]);
+                    let a = operand(g, avail);
+                    let b = operand(g, avail);
+                    if has_var(&a) || has_var(&b) { E::Bin(op, Box::new(a), Box::new(b)) } else { operand(g, avail) }
+                } else {
+                    let e = g.rhs(avail);
+                    let e = g.fit(e, w);
+                    // below S4 the right-hand side is not wider than the window (the JIT does not clip it: known class)
+                    if g.level < 4 && e.size(&g.vars) > w { operand(g, avail) } else { e }
+                }
+            };
+            let av = avail.clone();
+            let mut body = vec![];
+            let nst = g.r.range(1, 2);
+            for _ in 0..nst {
+                let st = S::SetD(t, w, E::Var(ix), dyn_rhs(&mut g, &av));
+                if g.r.chance(1, 3) {
+                    let c = g.bit(1, &av);
+                    body.push(S::If(c, vec![st], vec![]));
+                } else {
+                    body.push(st);
+                }
+            }
+            if seq_t {
+                let rl = E::Lit(tw.min(64), false, rand_value(g.r, tw.min(64)));
+                dyn_decls.push(D::Ff(true, vec![S::Set(t, 0, tw, rl)], body));
+            } else {
+                let d0 = g.rhs(&av);
+                let d0 = g.fit(d0, tw);
+                let d0 = g.widen(d0, tw, true);
+                let mut b = vec![S::Set(t, 0, tw, d0)];
+                b.extend(body);
+                dyn_decls.push(D::Comb(b));
+            }
+            if index_only {
+                hidden.push(ix);
+            } else if let_kind == Kind::Let && level < 4 {
+                // a `let` used as a run-time index AND read by an always_ff is hoisted and read stale (known class)
+                hidden_ff.push(ix);
+            }
+        }
+    }
     // combinational part, in dependency order
+    let _ = &hidden_ff;
     let mut k = 0;
     while k < combs.len() {
         let t = combs[k];
@@ -1521,12 +1664,13 @@ fn gen_design(r: &mut Rng, level: u32, seq: bool) -> Case {
                     rst.push(S::Set(*t, 0, w, E::Lit(w.min(64), false, rand_value(g.r, w.min(64)))));
                 }
             }
-            let all: Vec<usize> = (0..n).collect();
+            let all: Vec<usize> = (0..g.vars.len()).filter(|i| !hidden.contains(i) && !hidden_ff.contains(i)).collect();
             let depth = *g.r.pick(&[0u32, 1, 2, 2]);
             let body = g.stmts(depth, ts, &all, true, 4);
             decls.push(D::Ff(has_reset && !rst.is_empty(), rst, body));
         }
     }
+    decls.extend(dyn_decls);
     // declaration order is irrelevant to the semantics: shuffle
     for i in (1..decls.len()).rev() {
         let j = g.r.below(i as u64 + 1) as usize;
@@ -1779,6 +1923,7 @@ fn stats_of(c: &Case, log: &mut Log) {
     fn st(s: &S, log: &mut Log, vars: &[Var]) {
         match s {
             S::Set(v, lo, w, _) => log.count(if *lo == 0 && *w == vars[*v].width { "stmt.set" } else { "stmt.set-part" }),
+            S::SetD(_, w, _, _) => log.count(if *w == 1 { "stmt.set-dyn-bit" } else { "stmt.set-dyn-part" }),
             S::If(_, a, b) => {
                 log.count(if b.is_empty() { "stmt.if" } else { "stmt.if-else" });
                 a.iter().chain(b.iter()).for_each(|x| st(x, log, vars));
@@ -2017,6 +2162,11 @@ fn stmt_variants(s: &S, vars: &[Var]) -> Vec<S> {
                 out.push(S::Set(*v, 0, vars[*v].width, e.clone()));
             }
         }
+        S::SetD(v, w, i, e) => {
+            for e2 in e.shrinks(vars) {
+                out.push(S::SetD(*v, *w, i.clone(), e2));
+            }
+        }
         S::If(c, a, b) => {
             for c2 in c.shrinks(vars) {
                 if has_var(&c2) {
@@ -2178,7 +2328,7 @@ fn remove_var(c: &Case, i: usize) -> Option<Case> {
         }
         fn writes(s: &S, i: usize) -> bool {
             match s {
-                S::Set(v, ..) => *v == i,
+                S::Set(v, ..) | S::SetD(v, ..) => *v == i,
                 S::If(_, a, b) => a.iter().chain(b.iter()).any(|x| writes(x, i)),
                 S::Case(_, arms, d) => arms.iter().flat_map(|x| x.1.iter()).chain(d.iter()).any(|x| writes(x, i)),
                 S::Disp(..) => false,
@@ -2212,6 +2362,7 @@ fn remove_var(c: &Case, i: usize) -> Option<Case> {
         let ren = |v: usize| if v > i { v - 1 } else { v };
         match s {
             S::Set(v, lo, w, e) => S::Set(ren(*v), *lo, *w, e.clone()),
+            S::SetD(v, w, ix, e) => S::SetD(ren(*v), *w, ix.clone(), e.clone()),
             S::If(c, a, b) => S::If(c.clone(), a.iter().map(|x| fix_s(x, i)).collect(), b.iter().map(|x| fix_s(x, i)).collect()),
             S::Case(sel, arms, d) => S::Case(sel.clone(), arms.iter().map(|(l, b)| (l.clone(), b.iter().map(|x| fix_s(x, i)).collect())).collect(), d.iter().map(|x| fix_s(x, i)).collect()),
             o => o.clone(),
@@ -2327,7 +2478,7 @@ fn candidates(c: &Case) -> Vec<Case> {
             out.push(c2);
         }
     }
-    out.retain(|x| x.well_scoped() && x.fully_driven());
+    out.retain(|x| x.well_scoped() && x.fully_driven() && x.dyn_ok() && x.lets_ok());
     out
 }
 
@@ -2367,6 +2518,9 @@ fn shrink(c: &Case, target: &(String, String), m: &mut Model, pool: &mut Pool, b
             && (!f.unreset_reg || f0.unreset_reg)
             && (!f.partset || f0.partset)
             && (!f.shr_of_unary64 || f0.shr_of_unary64)
+            && (!f.dyn_lhs || f0.dyn_lhs)
+            && (!f.dyn_wide_rhs || f0.dyn_wide_rhs)
+            && (!f.dyn_let_ff || f0.dyn_let_ff)
     };
     'outer: loop {
         let mut cands = candidates(&cur);
@@ -2415,6 +2569,7 @@ fn signature(c: &Case, f: &[(String, String)], target: &(String, String)) -> Str
                     out.push("partset".into())
                 }
             }
+            S::SetD(..) => out.push("dynset".into()),
             S::If(_, a, b) => {
                 out.push("if".into());
                 a.iter().chain(b.iter()).for_each(|x| sk(x, vars, out));
@@ -2465,6 +2620,9 @@ struct Facts {
     unreset_reg: bool,
     x_stim: bool,
     shr_of_unary64: bool,
+    dyn_lhs: bool,
+    dyn_wide_rhs: bool,
+    dyn_let_ff: bool,
 }
 
 fn facts(c: &Case) -> Facts {
@@ -2480,6 +2638,9 @@ fn facts(c: &Case) -> Facts {
         unreset_reg: false,
         x_stim: c.has_x_stim(),
         shr_of_unary64: false,
+        dyn_lhs: false,
+        dyn_wide_rhs: false,
+        dyn_let_ff: false,
     };
     fn walk(e: &E, vars: &[Var], f: &mut Facts) {
         match e {
@@ -2511,6 +2672,10 @@ fn facts(c: &Case) -> Facts {
     fn st(s: &S, vars: &[Var], f: &mut Facts) {
         match s {
             S::Set(v, lo, w, _) => f.partset |= !(*lo == 0 && *w == vars[*v].width),
+            S::SetD(_, w, _, e) => {
+                f.dyn_lhs = true;
+                f.dyn_wide_rhs |= e.size(vars) > *w;
+            }
             S::If(c, a, b) => {
                 f.const_only_op |= !has_var(c);
                 a.iter().chain(b.iter()).for_each(|x| st(x, vars, f))
@@ -2537,6 +2702,26 @@ fn facts(c: &Case) -> Facts {
                 {
                     reset_regs.push(*v);
                 }
+            }
+        }
+    }
+    // `let` variables used as a run-time index and read inside an always_ff
+    let mut idx_vars: Vec<usize> = vec![];
+    fn idx_of(s: &S, out: &mut Vec<usize>) {
+        match s {
+            S::SetD(_, _, i, _) => i.reads(out),
+            S::If(_, a, b) => a.iter().chain(b.iter()).for_each(|x| idx_of(x, out)),
+            S::Case(_, arms, d) => arms.iter().flat_map(|x| x.1.iter()).chain(d.iter()).for_each(|x| idx_of(x, out)),
+            _ => {}
+        }
+    }
+    c.decls.iter().for_each(|d| d.stmts().iter().for_each(|s| idx_of(s, &mut idx_vars)));
+    for d in &c.decls {
+        if let D::Ff(..) = d {
+            for e in d.exprs() {
+                let mut r = vec![];
+                e.reads(&mut r);
+                f.dyn_let_ff |= r.iter().any(|i| idx_vars.contains(i) && c.vars[*i].kind == Kind::Let);
             }
         }
     }
@@ -2567,6 +2752,15 @@ fn classify(c: &Case, f: &[(String, String)], target: &(String, String), r4_has_
     }
     if (kind == "value4" || kind == "value" || kind == "display") && only(&["i4", "j4"]) && r4_has_x && (fx.unreset_reg || fx.x_stim || fx.has_div) {
         return "x-propagation:4state-engines".into();
+    }
+    if fx.dyn_wide_rhs && only(&["j2", "j4"]) {
+        return "run-time-indexed-store:jit-does-not-clip-rhs-wider-than-window".into();
+    }
+    if fx.dyn_let_ff {
+        return "run-time-indexed-store:let-index-also-read-by-always_ff-is-stale".into();
+    }
+    if fx.dyn_lhs {
+        return format!("run-time-indexed-store:{}", classes.join("+"));
     }
     if fx.shr_of_unary64 && only(&["cc"]) {
         return "cc:64bit-unary-not-or-neg-result-is-signed".into();
